@@ -223,9 +223,22 @@ impl Proc {
         }
     }
 
+    /// write to the plugin's stdin; a plugin that has stopped reading (pipe full) must not hang the check
+    pub async fn write_stdin(&mut self, bytes: &[u8]) -> bool {
+        match tokio::time::timeout(Duration::from_secs(10), async {
+            self.stdin.write_all(bytes).await?;
+            self.stdin.flush().await
+        })
+        .await
+        {
+            Ok(Ok(())) => true,
+            _ => false,
+        }
+    }
+
     pub async fn send(&mut self, v: &Value) -> bool {
         let s = v.to_string() + "\n\n";
-        self.stdin.write_all(s.as_bytes()).await.is_ok()
+        self.write_stdin(s.as_bytes()).await
     }
 
     pub async fn send_htlc(&mut self, id: Value, req: &Value) -> bool {
@@ -240,11 +253,12 @@ impl Proc {
         let s = json!({"jsonrpc":"2.0","id": id, "method":"htlc_accepted","params": req}).to_string() + "\n\n";
         let b = s.as_bytes();
         let at = if cut == 1 { b.len() - 1 } else { (cut as usize).min(b.len() - 1) };
-        if self.stdin.write_all(&b[..at]).await.is_err() || self.stdin.flush().await.is_err() {
+        let (first, second) = (b[..at].to_vec(), b[at..].to_vec());
+        if !self.write_stdin(&first).await {
             return false;
         }
         tokio::time::sleep(Duration::from_millis(15)).await;
-        self.stdin.write_all(&b[at..]).await.is_ok() && self.stdin.flush().await.is_ok()
+        self.write_stdin(&second).await
     }
 
     pub async fn send_block(&mut self, height: u32) -> bool {
@@ -274,6 +288,15 @@ impl Proc {
     }
 }
 
+/// user+system CPU ticks of a process (all threads), from /proc/<pid>/stat
+fn cpu_ticks(pid: u32) -> Option<u64> {
+    let st = std::fs::read_to_string(format!("/proc/{pid}/stat")).ok()?;
+    let rest = st.rsplit_once(')')?.1;
+    let f: Vec<&str> = rest.split_whitespace().collect();
+    // after the command name: state(0) ppid(1) ... utime is the 12th, stime the 13th field
+    Some(f.get(11)?.parse::<u64>().ok()? + f.get(12)?.parse::<u64>().ok()?)
+}
+
 pub fn rt() -> tokio::runtime::Runtime {
     tokio::runtime::Builder::new_multi_thread().worker_threads(2).enable_all().build().unwrap()
 }
@@ -297,6 +320,10 @@ pub struct Batch {
     /// write each request in two pieces: 0 = whole, 1 = cut between the two newlines of the separator, n>1 = cut after n bytes
     #[serde(default)]
     pub cut: u16,
+    /// this many plain forwards are written to the plugin in ONE write before the scenario's requests, so that
+    /// many handlers (and, at trace level, their log notifications) run at overlapping times on the worker threads
+    #[serde(default)]
+    pub burst: u16,
 }
 
 fn batch_scenario(nontramp_only: bool) -> impl Strategy<Value = Batch> {
@@ -309,7 +336,7 @@ fn batch_scenario(nontramp_only: bool) -> impl Strategy<Value = Batch> {
         scn.steps.clear();
         scn.hold.clear();
         scn.cfg = Cfg { mpp_timeout_s: 1, ..Cfg::default() };
-        Batch { scn, log_trace, cut }
+        Batch { scn, log_trace, cut, burst: 0 }
     })
 }
 
@@ -330,6 +357,14 @@ fn run_batch(b: &Batch, prop: &'static str) -> CaseReport {
             Started::Refused { stderr, .. } => return Err(format!("plugin refused to start with default options: {stderr}")),
         };
         let n = scn.htlcs.len();
+        if b.burst > 0 {
+            let mut blob = String::new();
+            for k in 0..b.burst {
+                let fwd = json!({"onion": {"payload": "", "short_channel_id": "1x1x1", "forward_msat": 1}, "htlc": {"short_channel_id": "1x1x1", "id": 100000 + k as u64, "amount_msat": 1, "cltv_expiry": 10, "cltv_expiry_relative": 5, "payment_hash": "00".repeat(32)}});
+                blob.push_str(&(json!({"jsonrpc":"2.0","id": format!("b{k}"), "method":"htlc_accepted","params": fwd}).to_string() + "\n\n"));
+            }
+            let _ = p.write_stdin(blob.as_bytes()).await;
+        }
         for i in 0..n {
             if !p.send_htlc_cut(json!(format!("h{i}")), &scn.render(i), b.cut).await {
                 break;
@@ -346,9 +381,15 @@ fn run_batch(b: &Batch, prop: &'static str) -> CaseReport {
         }
         tokio::time::sleep(Duration::from_millis(50)).await;
         // replies missing without a panic: is the plugin alive and answering other requests at once?
-        let missing = (0..n).filter(|i| p.reply(&json!(format!("h{i}"))).is_none()).count();
+        let burst_missing = {
+            let (fr, _) = frames(&p.out);
+            let got: std::collections::HashSet<String> = fr.iter().filter_map(|f| f.as_ref().ok()).filter_map(|f| f["id"].as_str().map(String::from)).collect();
+            (0..b.burst).filter(|k| !got.contains(&format!("b{k}"))).count()
+        };
+        let missing = (0..n).filter(|i| p.reply(&json!(format!("h{i}"))).is_none()).count() + burst_missing;
         let mut alive = false;
         let mut exited_late = false;
+        let mut quiescent = false;
         let exited = matches!(p.child.try_wait(), Ok(Some(_)));
         if missing > 0 && exited && p.panicked().is_none() {
             let d = format!("the plugin process exited with {missing} htlc_accepted calls unanswered (stdin still open); stderr: {}", p.err.lock().unwrap().chars().take(200).collect::<String>());
@@ -359,6 +400,24 @@ fn run_batch(b: &Batch, prop: &'static str) -> CaseReport {
             let ping = json!({"onion": {"payload": "", "short_channel_id": "1x1x1", "forward_msat": 1}, "htlc": {"short_channel_id": "1x1x1", "id": 999999, "amount_msat": 1, "cltv_expiry": 10, "cltv_expiry_relative": 5, "payment_hash": "00".repeat(32)}});
             p.send_htlc(json!("ping"), &ping).await;
             alive = p.wait_reply(&json!("ping"), 3000).await.is_some();
+            if !alive && matches!(p.child.try_wait(), Ok(None)) && p.panicked().is_none() {
+                // Neither dead nor answering. The plugin only ever waits for timers (MPP timeout 1 s, long past), for
+                // RPC replies (the node has none outstanding) or for input. If, on top of that, the process uses no
+                // CPU at all for 3 s it is not slow but stuck (deadlock / lost wake-up).
+                let rpc_outstanding = !p.shared.lock().unwrap().pending.is_empty();
+                if let (Some(pid), false) = (p.child.id(), rpc_outstanding) {
+                    let a = cpu_ticks(pid);
+                    tokio::time::sleep(Duration::from_secs(3)).await;
+                    let b = cpu_ticks(pid);
+                    let still_missing = (0..n).filter(|i| p.reply(&json!(format!("h{i}"))).is_none()).count();
+                    if a.is_some() && a == b && still_missing > 0 && p.reply(&json!("ping")).is_none() {
+                        quiescent = true;
+                        let d = format!("{still_missing} htlc_accepted calls and a later well-formed request are unanswered >15 s after delivery; the node has no RPC of the plugin outstanding, every timer has expired and the process used no CPU time for 3 s: the plugin is stuck");
+                        rep.violations.push(Violation::new("C06", "plugin_stuck_with_unanswered_requests", d.clone()));
+                        rep.violations.push(Violation::new("C17", "plugin_stuck_with_unanswered_requests", d));
+                    }
+                }
+            }
             if !alive && matches!(p.child.try_wait(), Ok(Some(_))) && p.panicked().is_none() {
                 // a well-formed request made the process exit (stdin is still open)
                 exited_late = true;
@@ -399,7 +458,7 @@ fn run_batch(b: &Batch, prop: &'static str) -> CaseReport {
             }
             match rs.first() {
                 None => {
-                    if exited || exited_late {
+                    if exited || exited_late || quiescent {
                         // reported once above
                     } else if p.panicked().is_none() && alive {
                         // >= 12 s after delivery with a 1 s MPP timeout and a pay that fails at once, while a request sent
@@ -433,6 +492,15 @@ fn run_batch(b: &Batch, prop: &'static str) -> CaseReport {
                         }
                     }
                 }
+            }
+        }
+        if burst_missing > 0 && !quiescent && !exited && !exited_late && p.panicked().is_none() {
+            if alive {
+                let d = format!("{burst_missing} of {} plain forwards written in one burst were never answered although the plugin answers a later request at once", b.burst);
+                rep.violations.push(Violation::new("C06", "no_reply_while_plugin_alive", d.clone()));
+                rep.violations.push(Violation::new("C17", "no_reply_while_plugin_alive", d));
+            } else {
+                rep.inconclusive = true;
             }
         }
         let all_nontramp = (0..n).all(|i| scn.classify(i) == Class::NonTrampoline);
@@ -482,7 +550,7 @@ pub fn c06_e2e(s: &mut Session) {
     booked(s, |s| {
         s.regress::<Batch, _>("e2e-batch", |b| run_batch(b, "C06"));
         let n = s.tier.pick(2, 20);
-        s.search("e2e-binary-batches", "e2e-batch", n, || batch_scenario(false), |b| run_batch(b, "C06"));
+        s.search("e2e-binary-batches", "e2e-batch", n, || (batch_scenario(false), prop_oneof![2 => Just(0u16), 1 => Just(200u16)]).prop_map(|(mut b, burst)| { b.burst = burst; b }), |b| run_batch(b, "C06"));
     });
 }
 
@@ -499,7 +567,7 @@ pub fn c17_e2e(s: &mut Session) {
     booked(s, |s| {
         s.regress::<Batch, _>("e2e-batch", |b| run_batch(b, "C17"));
         let n = s.tier.pick(2, 16);
-        s.search("e2e-binary-trace-logging", "e2e-batch", n, || batch_scenario(false).prop_map(|mut b| { b.log_trace = true; b }), |b| run_batch(b, "C17"));
+        s.search("e2e-binary-trace-logging", "e2e-batch", n, || (batch_scenario(false), prop_oneof![Just(0u16), Just(60u16), Just(400u16)]).prop_map(|(mut b, burst)| { b.log_trace = true; b.burst = burst; b }), |b| run_batch(b, "C17"));
     });
 }
 
